@@ -1077,6 +1077,14 @@ func (e *specEnv) call(n *ast.CallExpr) Val {
 			}
 			return Val{tBool, []string{fmt.Sprintf("(forall ((%s Int) (%s Int)) (! %s :pattern (%s) :pattern (%s)))", bm, bk,
 				imp(and(lt("0", bm), dom), body.C[0]), vc[0], dom)}}
+		case "ref":
+			// ref(x): the object reference behind a pointer or interface value, as an integer (key of ghost fields)
+			v := e.eval(n.Args[0])
+			r := v.C[0]
+			if _, isIface := under(v.T).(*types.Interface); isIface {
+				r = v.C[1]
+			}
+			return Val{tInt, []string{r}}
 		case "emptymap":
 			// emptymap(m): the map m has no entries
 			mv := e.eval(n.Args[0])
